@@ -19,7 +19,8 @@ LEVEL = "exploration"
 RULE = ("exhaustive: every *.h under utils/fake_libc_include (discovered from the working tree) x {-std=c99, c11, gnu99, "
         "gnu11} x {cpp_args as list, cpp_args as str (include dir through CPATH)}, each followed by one declaration and "
         "one sizeof per typedef name found in _fake_typedefs.h by an independent regex; random subsets (2-20 headers, "
-        "random order). Non-trivial: the preprocessed text declares >= 1 typedef; distinct = distinct (header set, "
+        "random order); every helper header (_fake_defines.h, _fake_typedefs.h, X11/_X11_fake_*.h) included directly and first, "
+        "followed by every other header. Non-trivial: the preprocessed text declares >= 1 typedef; distinct = distinct (header set, "
         "order, dialect, form).")
 ASSUMPTIONS = ["the system cpp (gcc 12) is the preprocessor", "typedef names are read from _fake_typedefs.h with a regex "
                "(typedef <anything> NAME;)"]
@@ -70,6 +71,8 @@ def plan(tier, seed):
     nsub = 12 if tier == "quick" else 500
     for i in range(n):
         specs.append({"name": f"subset-{i}", "mode": "subset", "n": nsub, "rseed": seed * 97 + i})
+    for i in range(n):
+        specs.append({"name": f"helper-first-{i}", "mode": "helper", "shard": i, "nshards": n})
     return specs
 
 
@@ -201,6 +204,30 @@ def run_shard(spec):
                         cases.append({"headers": [h], "dialect": d, "form": form, "use_types": use, "manual": manual})
                 if spec["tier"] != "quick" or i % 8 == spec["shard"] % 8:
                     cases.append({"headers": [h], "dialect": "", "form": "str-path-with-blank", "use_types": use, "manual": i % 3 == 0})
+        elif spec["mode"] == "helper":
+            # the helper headers (_fake_defines.h, _fake_typedefs.h and their X11 counterparts: the ones that do not
+            # themselves pull in _fake_typedefs.h) are shipped headers too: each of them directly, FIRST, followed by
+            # every other header (thorough: also second, and a third header in between)
+            def pulls(h):
+                with open(os.path.join(sut.FAKE_LIBC, h)) as hf:
+                    return "_fake_typedefs.h" in hf.read().replace("_X11_fake_typedefs.h", "") or os.path.basename(h) == "_fake_typedefs.h"
+            helpers = [h for h in hdrs if not pulls(h) or os.path.basename(h) == "_fake_typedefs.h"]
+            res["counters"]["helper_headers"] = len(helpers)
+            k = 0
+            for h0 in helpers:
+                for h in hdrs:
+                    if h == h0:
+                        continue
+                    k += 1
+                    if k % spec["nshards"] != spec["shard"]:
+                        continue
+                    use = pulls(h) or pulls(h0)
+                    cases.append({"headers": [h0, h], "dialect": DIALECTS[k % 4], "form": "list", "use_types": use, "manual": False})
+                    if spec["tier"] != "quick":
+                        cases.append({"headers": [h, h0], "dialect": DIALECTS[(k + 1) % 4], "form": "str", "use_types": use, "manual": False})
+                        h3 = hdrs[(k * 7) % len(hdrs)]
+                        cases.append({"headers": [h0, h3, h], "dialect": DIALECTS[(k + 2) % 4], "form": "list",
+                                      "use_types": use or pulls(h3), "manual": False})
         else:
             rnd = random.Random(spec["rseed"])
             for _ in range(spec["n"]):
